@@ -227,9 +227,9 @@ class BaseOPB:
                 if c<0:
                     raise ValueError("coefficients should be positive")
                 maxv = max(abs(l),maxv)
-            self._numvar = maxv
             if data[-2] not in ['>=','==']:
                 raise ValueError("only >= and == operators allowed")
+            self._numvar = maxv
         except (TypeError, ValueError) as te:
             msg = "constraint is not well formatted"
             raise ValueError(msg) from te
@@ -344,10 +344,11 @@ not have any effect."""
         if _verif.ENABLED:
             _verif.note_literals(self, [l for (_, l) in data[:-2]])
 
-        self._constraints.append(data)
-
+        # a refused clause must not stay in the formula
         if check:
             self._check_and_update(data)
+
+        self._constraints.append(data)
 
     def add_clauses_from(self, clauses, check=True):
         """Add a sequence of clauses to the CNF
@@ -396,10 +397,11 @@ not have any effect."""
         constraint = normalize_opb(constraint)
         if _verif.ENABLED:
             _verif.note_literals(self, [l for (_, l) in constraint[:-2]])
-        self._constraints.append(constraint)
-
+        # a refused constraint must not stay in the formula
         if check:
             self._check_and_update(constraint)
+
+        self._constraints.append(constraint)
 
     def add_constraints_from(self, constraints, check=True):
         """Add a sequence of constraints to the formula
